@@ -134,6 +134,9 @@ Definition constructors : list string :=
   ["newCmSketch"; "newTinyLFU"; "newSampledLFU"; "newDefaultPolicy"; "newPolicy"; "newLockedMap"; "newExpirationMap";
    "newShardedMap"; "newStore"; "newMetrics"; "NewCache"].
 
+(* fields that are shared without a mutex and must therefore only ever be touched through sync/atomic *)
+Definition atomics : list string := ["sampledLFU.maxCost"].
+
 Definition guard_of (field : string) : option (string * bool) :=
   match find (fun g => String.eqb (fst (fst g)) field) guards with
   | Some (_, g, strict) => Some (g, strict)
@@ -149,7 +152,9 @@ Definition needs_exclusive (field kind fn : string) (strict : bool) : bool :=
 Definition access_ok (a : string * string * string * list (string * bool)) : bool :=
   let '(field, kind, fn, held) := a in
   match guard_of field with
-  | None => true
+  | None =>
+      (* an atomic field: every access outside a constructor goes through sync/atomic *)
+      negb (existsb (String.eqb field) atomics) || existsb (String.eqb fn) constructors || String.eqb kind "a"
   | Some (g, strict) =>
       existsb (String.eqb fn) constructors ||
       (negb (String.eqb kind "a") && holds held g (needs_exclusive field kind fn strict))
@@ -168,6 +173,10 @@ Lemma discipline_nonvacuous :
   30 <= List.length guarded_accesses /\
   forallb (fun g => existsb (fun a => String.eqb (fst (fst (fst a))) (fst (fst g))) guarded_accesses) guards = true.
 Proof. vm_compute. split; [repeat constructor|reflexivity]. Qed.
+(* ... and every atomic field is accessed at least once, atomically *)
+Lemma atomics_nonvacuous :
+  forallb (fun f => existsb (fun a => String.eqb (fst (fst (fst a))) f && String.eqb (snd (fst (fst a))) "a") lock_accesses) atomics = true.
+Proof. vm_compute. reflexivity. Qed.
 
 (* ---- what the discipline buys ---- *)
 Section Discipline.
